@@ -229,6 +229,9 @@ pub mod sasl_profile;
 pub mod session;
 pub mod transport;
 
+#[cfg(fe2o3_amqp_verif)]
+pub mod verif;
+
 cfg_acceptor! {
     pub mod acceptor;
 }
